@@ -289,12 +289,9 @@ Proof.
     destruct bv as [S0|s|x|bb].
     + refine (step_body_sorted fl t S0 ds ax nt _ l Hwf (IHb _ _ Hb) _ H).
       intros rv l0 l' Hs Hl. eapply apply_preds_sorted; eauto.
-    + unfold step_nonset in H. match type of H with (if ?c then _ else _) = _ => destruct c end;
-        inversion H; reflexivity.
-    + unfold step_nonset in H. match type of H with (if ?c then _ else _) = _ => destruct c end;
-        inversion H; reflexivity.
-    + unfold step_nonset in H. match type of H with (if ?c then _ else _) = _ => destruct c end;
-        inversion H; reflexivity.
+    + discriminate.
+    + discriminate.
+    + discriminate.
   - destruct (eval fl t cx e') as [v|] eqn:He; cbn [bind] in H; [|discriminate].
     destruct v as [l0|s|x|bb]; try discriminate.
     match type of H with bind ?x _ = _ => destruct x as [l1|] eqn:Hl end; cbn [bind] in H; [|discriminate].
@@ -389,7 +386,7 @@ Lemma eval_step_eq fl t cx base ds ax nt ps :
   bind (eval fl t cx base) (fun bv =>
     match bv with
     | VSet S0 => step_body fl t S0 ds ax nt (fun rv l => apply_preds fl t cx rv ps l)
-    | _ => step_nonset fl nt
+    | _ => Err E_TYPE
     end).
 Proof. reflexivity. Qed.
 
